@@ -35,6 +35,9 @@ pub fn handle(line: &str) -> String {
                 }
                 Ok(ssa) => {
                     out["ssa"] = crate::dump::cfg(&ssa);
+                    // the number of passes each propagation loop performed (hook H2)
+                    out["value_passes_run"] = json!(program_structure::cfg::verif::VALUE_PASSES_RUN.with(|c| c.get()));
+                    out["degree_passes_run"] = json!(program_structure::cfg::verif::DEGREE_PASSES_RUN.with(|c| c.get()));
                     // the variables of the CFG that the lookup accessors do not find (C14: every version is covered by a declaration)
                     let missing: Vec<String> = ssa
                         .variables()
